@@ -486,7 +486,7 @@ def drive(world, method, cfg, plans):
 # ----------------------------------------------------------------------------------------------------------------
 TRACE_INV = ["M_RollBatch", "M_RollScore", "M_Start", "M_Best", "M_Sol", "M_SolSeen", "M_Mono", "M_Buffers", "M_FinalShape",
              "M_Final", "M_Params", "M_IterCount", "M_Drift", "End_"]
-TRACE_CONST = dict(Method='"AS"', NData="1", B="1", A="1", R="1", MaxIters="1", C="1", DevSlots="{}", StaleTail="FALSE",
+TRACE_CONST = dict(Method='"AS"', NData="1", B="1", A="1", R="1", MaxIters="1", C="1", DevSlots="{}", Stops="{}", Focuses="{}", StaleTail="FALSE", EASGroupAsCoded="FALSE",
                    EASStartMod="FALSE", OptSteps="0", Aliased="TRUE")
 # clause -> property
 CLAUSE = {"rollouts-of-own-batch": "C12", "rollout-reward-is-objective-on-original": "C12", "start-node-feasible": "C12",
@@ -546,8 +546,8 @@ INVARIANTS = ["TypeOK", "BestIsMax", "SolAchieves", "Monotone", "RowsKeepInstanc
               "FinalBest", "ParamsAtBatchStart", "IterCount", "Emit"]
 FIELDS = ["pc", "bi", "it", "ver", "maxRew", "bestSol", "instRew", "instSol", "rolls"]
 # the INTENDED behaviour (see the header of Search.tla); `--as-coded` explores the behaviour of the pinned tree instead
-INTENDED = dict(StaleTail="FALSE", EASStartMod="FALSE", OptSteps="0", Aliased="TRUE")
-AS_CODED = dict(StaleTail="TRUE", EASStartMod="TRUE", OptSteps="0", Aliased="TRUE")
+INTENDED = dict(StaleTail="FALSE", EASStartMod="FALSE", EASGroupAsCoded="FALSE", OptSteps="0", Aliased="TRUE")
+AS_CODED = dict(StaleTail="TRUE", EASStartMod="TRUE", EASGroupAsCoded="TRUE", OptSteps="0", Aliased="TRUE")
 
 CONFIGS = {
     # env, method (model), cls (real class), n, B, A, R, max_iters, C, DevSlots
@@ -555,17 +555,18 @@ CONFIGS = {
         dict(env="tsp", method="AS", cls="AS", n=2, B=1, A=2, R=1, max_iters=2, C=2, dev="{1, 8}"),
         dict(env="cvrp", method="AS", cls="AS", n=3, B=1, A=2, R=1, max_iters=2, C=2, dev="{1, 6}"),
         dict(env="tsp", method="EAS", cls="EASEmb", n=3, B=2, A=2, R=1, max_iters=2, C=2, dev="{1, 10}"),
-        dict(env="cvrp", method="EAS", cls="EASLay", n=4, B=2, A=2, R=1, max_iters=2, C=2, dev="{2, 8}"),
+        dict(env="cvrp", method="EAS", cls="EASLay", n=4, B=2, A=2, R=1, max_iters=2, C=2, dev="{3, 8}", focus="{1}"),
     ],
     "thorough": [
-        dict(env="tsp", method="AS", cls="AS", n=3, B=1, A=2, R=1, max_iters=3, C=3, dev="{1, 4, 8}"),
-        dict(env="tsp", method="AS", cls="AS", n=2, B=1, A=8, R=1, max_iters=2, C=2, dev="{1, 32}"),
-        dict(env="cvrp", method="AS", cls="AS", n=3, B=1, A=2, R=2, max_iters=3, C=3, dev="{1, 12}"),
-        dict(env="cvrp", method="AS", cls="AS", n=2, B=1, A=8, R=1, max_iters=2, C=2, dev="{1, 24}"),
-        dict(env="tsp", method="EAS", cls="EASEmb", n=5, B=2, A=2, R=1, max_iters=3, C=2, dev="{1, 10}"),
-        dict(env="tsp", method="EAS", cls="EASLay", n=5, B=3, A=2, R=1, max_iters=2, C=3, dev="{1, 5, 10}"),
+        dict(env="tsp", method="AS", cls="AS", n=3, B=1, A=2, R=1, max_iters=3, C=2, dev="{1, 4, 8}"),
+        dict(env="tsp", method="AS", cls="AS", n=2, B=1, A=8, R=1, max_iters=2, C=3, dev="{1, 32}"),
+        dict(env="cvrp", method="AS", cls="AS", n=3, B=1, A=2, R=2, max_iters=3, C=2, dev="{1, 12}"),
+        dict(env="cvrp", method="AS", cls="AS", n=2, B=1, A=8, R=1, max_iters=2, C=3, dev="{1, 24}"),
+        dict(env="tsp", method="EAS", cls="EASEmb", n=5, B=2, A=2, R=1, max_iters=2, C=2, dev="{1, 10}"),
+        dict(env="tsp", method="EAS", cls="EASLay", n=5, B=3, A=2, R=1, max_iters=2, C=2, dev="{1, 10}"),
         dict(env="tsp", method="EAS", cls="EAS", n=4, B=2, A=8, R=1, max_iters=2, C=2, dev="{1, 40}"),
-        dict(env="cvrp", method="EAS", cls="EASEmb", n=4, B=2, A=2, R=1, max_iters=3, C=3, dev="{2, 8}"),
+        dict(env="tsp", method="EAS", cls="EASEmb", n=4, B=2, A=2, R=1, max_iters=2, C=3, dev="{1}"),
+        dict(env="cvrp", method="EAS", cls="EASEmb", n=4, B=2, A=2, R=1, max_iters=3, C=2, dev="{2}"),
         dict(env="cvrp", method="EAS", cls="EASLay", n=5, B=3, A=2, R=1, max_iters=2, C=2, dev="{2, 5, 8}"),
         dict(env="cvrp", method="EAS", cls="EAS", n=4, B=2, A=2, R=2, max_iters=2, C=2, dev="{2}"),
     ],
@@ -584,7 +585,9 @@ def model_run(cd, ci, flags):
     tlc.dump_json(wf, world.json())
     wd, root = tlc.prepare("search_%d" % ci, module="Search")
     C = dict(Method='"%s"' % cd["method"], NData=str(cd["n"]), B=str(cd["B"]), A=str(cd["A"]), R=str(cd["R"]),
-             MaxIters=str(cd["max_iters"]), C=str(cd["C"]), DevSlots=cd["dev"])
+             MaxIters=str(cd["max_iters"]), C=str(cd["C"]), DevSlots=cd["dev"],
+             Stops=cd.get("stops", "{%s}" % ", ".join(str(k) for k in range(1, cd["max_iters"] + 1))),
+             Focuses=cd.get("focus", "{%s}" % ", ".join(str(k) for k in range(-(-cd["n"] // cd["B"])))))
     C.update(flags)
     tlc.write_cfg(wd, root, constants=C, invariants=INVARIANTS)
     r = tlc.run(wd, root, workers=1, coverage=True, timeout=3000, env={"WORLD_FILE": wf}, heap="3g")
@@ -641,6 +644,7 @@ def compare_run(world, cd, table, key, events):
     focus, stop, h = key
     env_name, nn_ = world.env_name, world.NN
     seen = {}                                       # iid -> {(rew, eff acts)} by content, from the REAL rollouts
+    prev_iter = None                                # observation of the previous iteration of the same batch
     if len(events) != len(h):
         kinds = [e["a"] for e in events]
         return [(min(len(events), len(h)) - 1, "C15", "iteration-count",
@@ -657,6 +661,21 @@ def compare_run(world, cd, table, key, events):
             want = sorted((r["i"], r["rew"], tuple(eff(env_name, r["acts"], nn_))) for r in spec["rolls"])
             for r in e["rolls"]:
                 seen.setdefault(r["i"], set()).add((r["rew"], tuple(eff(env_name, r["acts"], nn_))))
+            if real != want and cd["method"] == "EAS" and e["it"] > 1 and prev_iter is not None:
+                # an earlier arg-max tie was broken differently (accepted above): the re-constructed incumbents differ, although
+                # they are equally good.  Compare the free rollouts, and require the real incumbent rows to be the real incumbent.
+                copies = cd["A"] * cd["R"]
+                real2, ok_inc = list(real), True
+                want2 = sorted((r["i"], r["rew"], tuple(eff(env_name, r["acts"], nn_))) for r in spec["rolls"] if not r["inc"])
+                for b, row in enumerate(prev_iter["bestSol"]):
+                    item = (e["bi"] * cd["B"] + b + 1, prev_iter["maxRew"][b], tuple(eff(env_name, row, nn_)))
+                    for _ in range(copies):
+                        if item in real2:
+                            real2.remove(item)
+                        else:
+                            ok_inc = False
+                if ok_inc and sorted(real2) == want2:
+                    real = want
             if real != want:
                 bad_start = [(r["i"], r["acts"]) for r in e["rolls"] if r["i"] and r["acts"][0] not in first_moves(world, r["i"])]
                 if bad_start:
@@ -679,6 +698,7 @@ def compare_run(world, cd, table, key, events):
                     continue                      # another maximiser of the same instance (ties of the arg-max)
                 return [(j, "C15", "stored-solution-is-a-rollout-of-its-instance",
                          "best_solutions[%d] = %s for reward %s, specification %s" % (b, row, o["maxRew"][b], srow))]
+        prev_iter = o if act[0] == "iter" else None
         if act[0] in ("setup", "bend", "end"):
             if o["instRew"] != spec["instRew"]:
                 return [(j, "C12" if act[0] == "bend" else "C15", "batch-results-at-own-rows" if act[0] == "bend" else "reported-best-of-all-rollouts",
